@@ -18,7 +18,7 @@ RULE = ('Hypothesis draws mode sizes (order 1..4, N <= 64 quick / 256 thorough),
         'spectrum whose top eigenvalue is separated, optionally a Hermitian positive-definite right-hand operator (cond <= 10), '
         'real or complex data, TT conversion by the harness\' TT-SVD, a guess class (maximal ranks in a random gauge, rank 1, '
         'admissible, exact dominant eigentensor right-orthonormalised by the harness), solver eig/eigh/eigs, sigma, number_ev '
-        '1..2, repeats 1..4 (conv_eps = 0), 0..2 deflation tensors with a shift. Oracles: dense scipy.linalg.eigh of the '
+        '1..2, repeats 1..4 (conv_eps = 0, sometimes 1e-9), real = True/False, 0..2 deflation tensors with a shift. Oracles: dense scipy.linalg.eigh of the '
         '(shifted) pencil; Rayleigh quotient of the returned tensor; monotonicity of |lambda - sigma| in the sweep count; the '
         'metamorphic relation als(A, previous=P, shift=s) == als(A + s sum p p^H); for power_method the Rayleigh quotient with '
         'conjugation and the inverse-iteration bound tan(theta_k) <= rho^k tan(theta_0). Non-trivial: complex, deflation, '
@@ -63,7 +63,8 @@ def als_case(draw):
          'solver': draw(st.sampled_from(['eig', 'eigh', 'eigh', 'eigs'])), 'number_ev': draw(st.sampled_from([1, 1, 2])),
          'repeats': draw(st.integers(1, 4)), 'guess': draw(st.sampled_from(['maximal', 'rank1', 'admissible', 'exact'])),
          'n_prev': draw(st.sampled_from([0, 0, 1, 2])), 'shift': draw(st.sampled_from([-1.0, 0.5, 2.0])),
-         'sigma_mode': draw(st.sampled_from(['above', 'above', 'inside', 'default']))}
+         'sigma_mode': draw(st.sampled_from(['above', 'above', 'inside', 'default'])),
+         'real': draw(st.sampled_from([True, True, False])), 'conv_eps': draw(st.sampled_from([0, 0, 0, 1e-9]))}
     if c['guess'] == 'admissible':
         c['ranks'] = admissible(draw, dims, lo=2)
     if c['n_prev']:
@@ -156,6 +157,10 @@ def body_als(c):
     lab = {solver, 'guess_' + c['guess'], 'sigma_' + c['sigma_mode'], 'nev%d' % nev}
     if c['cplx']:
         lab.add('complex')
+    if not c.get('real', True):
+        lab.add('real_false')
+    if c.get('conv_eps', 0):
+        lab.add('conv_eps>0')
     if d == 1:
         lab.add('order1')
     if prev:
@@ -166,15 +171,25 @@ def body_als(c):
     tol = 1e-8 * scale
 
     def run(operator, previous, repeats):
-        kw = dict(operator_gevp=opB, number_ev=nev, repeats=repeats, conv_eps=0, solver=solver, sigma=sigma)
+        kw = dict(operator_gevp=opB, number_ev=nev, repeats=repeats, conv_eps=c.get('conv_eps', 0), solver=solver, sigma=sigma)
+        if not c.get('real', True):
+            kw['real'] = False        # eigenvalues are handed back without taking real parts (Hermitian problem: imaginary part 0)
         if previous:
             kw.update(previous=previous, shift=c['shift'])
-        return evp.als(operator, g, **kw)
+        ev, et, it = evp.als(operator, g, **kw)
+        evl = [ev] if nev == 1 else list(ev)
+        for v in evl:
+            require(abs(complex(v).imag) <= tol, 'real_eigenvalues', 'eigenvalue %r of a Hermitian problem has an imaginary part' % (v,))
+        evl = [float(complex(v).real) for v in evl]
+        return (evl[0] if nev == 1 else evl), et, it
 
     lams = []
     for k in range(1, c['repeats'] + 1):
         ev, et, it = run(op, prev, k)
-        require(it == k, 'iterations', 'conv_eps=0: %d iterations reported for repeats=%d' % (it, k))
+        if c.get('conv_eps', 0) == 0:
+            require(it == k, 'iterations', 'conv_eps=0: %d iterations reported for repeats=%d' % (it, k))
+        else:
+            require(1 <= it <= k, 'iterations', 'conv_eps>0: %d iterations reported for repeats=%d' % (it, k))
         evs = [ev] if nev == 1 else list(ev)
         ets = [et] if nev == 1 else list(et)
         require(len(evs) == nev and len(ets) == nev, 'number_ev', '%d eigenvalues / %d eigentensors for number_ev=%d' % (len(evs), len(ets), nev))
